@@ -39,6 +39,14 @@ claim('C10', 'ctypes probes on a shared object compiled from the working tree li
       'trapezoid/Simpson point sets on random grids.',
       'exact arithmetic of fractions.Fraction; the defining formula in theory/func/bardell/bardell.py; sub-interval/mapped tables are sampled in their real arguments', '4/C10')
 
+claim('C09', 'boundary monitor (recording lists shadowing Analysis.cs/increments) + online trace monitor on the rebound newton_raphson.msg/warn event stream; tangent fault injection',
+      'Each run of the real _solver_NR on synthetic problems with pure fext/fint and a scripted (hostile) tangent is observed through two monitors: every reported '
+      '(load factor, state) is re-judged with the user callables (equilibrium < absTOL, strictly increasing in (0,1], snapshot digests unchanged, no aliasing); the '
+      'parsed event stream is checked against the driver contract (append only after a convergence event at iteration>=2 with logged Rmax<absTOL, next attempt '
+      'after a failure strictly between last reported and failed factor, increment <= maxInc, iterations <= maxNumIter+1) and bounded progress is enforced by '
+      'call/log budgets derived from the settings (exceeding them is the violation that stands for non-termination). Thousands of distinct outcome words per run.',
+      'termination is restated as a step bound computed from (initialInc, minInc, maxInc); fext/fint purity of the synthetic problems', '4/C09')
+
 ALL = ['C%02d' % i for i in range(1, 21)]
 PENDING_REASON = 'check not built yet in this round (runtime-monitoring plan in DESIGN.md section 4); will be claimed once its monitor runs silent on the unchanged tree'
 
